@@ -109,6 +109,7 @@ class Path:
 
 
 BRANCH_TIMEOUT_MS = 5000
+INCR_TIMEOUT_MS = 400
 MAX_PATHS = 4000
 CUR = None
 STATS = {"paths": 0, "branch_queries": 0, "branch_time": 0.0, "branch_unknown": 0}
@@ -132,6 +133,24 @@ def assume(cond):
     p.add(e)
 
 
+def _branch_check(p, cond):
+    """feasibility of path /\ cond: incremental core first (fast, weak on nonlinear
+    arithmetic), then a fresh non-incremental solver (nlsat) when that is unknown."""
+    p.solver.push()
+    p.solver.add(cond)
+    p.solver.set("timeout", INCR_TIMEOUT_MS)
+    r = str(p.solver.check())
+    p.solver.pop()
+    if r != "unknown":
+        return r
+    s2 = z3.Solver()
+    s2.set("timeout", BRANCH_TIMEOUT_MS)
+    s2.add(p.solver.assertions())
+    s2.add(cond)
+    STATS["branch_fresh"] = STATS.get("branch_fresh", 0) + 1
+    return str(s2.check())
+
+
 def decide(e):
     """Decide the z3 Bool ``e`` on the current path (fork if both feasible)."""
     p = cur()
@@ -146,14 +165,8 @@ def decide(e):
         t0 = time.time()
         for ax in p.inst.new_axioms([e]):
             p.solver.add(ax)
-        p.solver.push()
-        p.solver.add(e)
-        rt = str(p.solver.check())
-        p.solver.pop()
-        p.solver.push()
-        p.solver.add(z3.Not(e))
-        rf = str(p.solver.check())
-        p.solver.pop()
+        rt = _branch_check(p, e)
+        rf = _branch_check(p, z3.Not(e))
         STATS["branch_queries"] += 2
         STATS["branch_time"] += time.time() - t0
         p.nsolve += 2
@@ -223,6 +236,21 @@ def explore(fn, max_paths=None):
         except Exception as ex:  # library exception: a path outcome
             exc = ex
             tb = traceback.format_exc().splitlines()[-6:]
+        if CUR.forced_unknown and CUR.pc:
+            # some branch feasibility query timed out: re-check the whole path condition
+            # with a fresh solver; an infeasible path is dropped (it is not a case)
+            chk = z3.Solver()
+            chk.set("timeout", 4 * BRANCH_TIMEOUT_MS)
+            conds = CUR.assumed + CUR.pc
+            ax, _ = theory.axioms(conds, pairwise=False)
+            chk.add(ax)
+            chk.add(conds)
+            STATS["branch_queries"] += 1
+            if str(chk.check()) == "unsat":
+                STATS["pruned_paths"] = STATS.get("pruned_paths", 0) + 1
+                work += CUR.pending
+                CUR = None
+                continue
         res.append(PathResult(CUR, out, exc, tb))
         STATS["paths"] += 1
         work += CUR.pending
